@@ -29,7 +29,13 @@ def arbiter_config(draw, max_n=6, min_n=1):
     if draw(st.integers(0, 3)) == 0:
         bad = draw(st.lists(st.tuples(st.integers(0, n), st.sampled_from(["aw", "dw", "gran", "lacks_err", "lacks_rty"])).map(list),
                             min_size=1, max_size=2))
-    return {"aw": draw(st.integers(0, 6)), "dw": dw, "g": g, "feat": feat, "intrs": intrs, "bad_adds": bad}
+    return {"aw": draw(st.integers(0, 6)), "dw": dw, "g": g, "feat": feat, "intrs": intrs, "bad_adds": bad,
+            # the arbiter is elaborated once after this many add() calls (None: only when complete)
+            "mid_elab": draw(st.sampled_from([None, None, None, 0, 1, 2])),
+            # feature names given partly as strings, partly as Feature members
+            "feat_mixed": draw(st.booleans()),
+            # every initiator interface created with the same path (identically named signals)
+            "same_path": draw(st.sampled_from([False, False, True]))}
 
 
 def schedule_spec():
@@ -43,7 +49,11 @@ def schedule_spec():
 
 
 def build(cfg):
-    arb = wishbone.Arbiter(addr_width=cfg["aw"], data_width=cfg["dw"], granularity=cfg["g"], features=cfg["feat"])
+    def spell(feat):
+        if not cfg.get("feat_mixed"):
+            return list(feat)
+        return [wishbone.Feature(f) if k % 2 == 0 else f for k, f in enumerate(feat)]
+    arb = wishbone.Arbiter(addr_width=cfg["aw"], data_width=cfg["dw"], granularity=cfg["g"], features=spell(cfg["feat"]))
     intrs = []
     arb.ghosts = []
 
@@ -80,9 +90,13 @@ def build(cfg):
     for i, s in enumerate(cfg["intrs"]):
         bad_adds(i)
         f = wishbone.Interface(addr_width=cfg["aw"], data_width=cfg["dw"], granularity=s["g"],
-                               features=s["feat"], path=(f"intr{i}",))
+                               features=spell(s["feat"]), path=("intr",) if cfg.get("same_path") else (f"intr{i}",))
         arb.add(f)
         intrs.append(f)
+        if cfg.get("mid_elab") is not None and cfg["mid_elab"] == i:
+            from amaranth.hdl import Fragment
+            Fragment.get(arb, None)
+            arb.mid_elaborated = i < len(cfg["intrs"]) - 1
     bad_adds(len(cfg["intrs"]))
     return arb, intrs
 
@@ -243,6 +257,10 @@ def run_schedule(cfg, sched, stats, prop, check_bus, check_next):
     sim.simulate(top, tb)
     stats.add("simulated_cycles", sched["cycles"])
     stats.label(f"N={n}")
+    stats.label("N>=9", n >= 9)
+    stats.label("add_after_elaboration", getattr(arb, "mid_elaborated", False))
+    stats.label("mixed_feature_spelling", bool(cfg.get("feat_mixed")) and len(cfg["feat"]) >= 2)
+    stats.label("same_signal_names", bool(cfg.get("same_path")) and n >= 2)
     stats.label("arbiter_has_lock", "lock" in feat)
     stats.label("arbiter_lacks_lock", "lock" not in feat)
     stats.label("mixed_granularity", any(s["g"] != cfg["g"] for s in cfg["intrs"]))
